@@ -2,7 +2,7 @@
     clauses the property names; the remaining functions are decided by
     correspondence, see DESIGN.md).  Statements only. *)
 From Coq Require Import Sorting.Permutation Sorting.Sorted.
-From JP Require Import Base F64 Value Sig Functions Interp Proofs.ObjFacts Proofs.FunProof.
+From JP Require Import Base F64 Value Sig Functions Interp Proofs.ObjFacts Proofs.FunProof Proofs.OrdProof Proofs.StrFunProof.
 
 (** sort / sort_by: the sorting routine of the model (stable insertion sort by
     [Ord for Variable], applied to the values resp. to (value, key) pairs)
@@ -28,6 +28,41 @@ Theorem C02_sort_is_stable : forall (A : Type) (cmp : A -> A -> comparison),
   forall k l, filter (equiv_to cmp k) (stable_sort cmp l) = filter (equiv_to cmp k) l.
 Proof. exact @stable_sort_stable. Qed.
 Print Assumptions C02_sort_is_stable.
+
+(** The premises hold on what the signatures admit: an array of numbers (no NaN —
+    every JSON number) or an array of strings.  There [Ord for Variable] is a total
+    preorder compatible with its equivalence, so sort is ascending and stable. *)
+Theorem C02_sort_numbers_ascending : forall l, forallb is_num_ok l = true -> StronglySorted (le var_cmp) (stable_sort var_cmp l).
+Proof. exact sort_numbers_ascending. Qed.
+Print Assumptions C02_sort_numbers_ascending.
+
+Theorem C02_sort_strings_ascending : forall l, forallb is_str l = true -> StronglySorted (le var_cmp) (stable_sort var_cmp l).
+Proof. exact sort_strings_ascending. Qed.
+Print Assumptions C02_sort_strings_ascending.
+
+Theorem C02_sort_numbers_stable : forall k l, is_num_ok k = true -> forallb is_num_ok l = true ->
+  filter (equiv_to var_cmp k) (stable_sort var_cmp l) = filter (equiv_to var_cmp k) l.
+Proof. exact sort_numbers_stable. Qed.
+Print Assumptions C02_sort_numbers_stable.
+
+Theorem C02_sort_strings_stable : forall k l, is_str k = true -> forallb is_str l = true ->
+  filter (equiv_to var_cmp k) (stable_sort var_cmp l) = filter (equiv_to var_cmp k) l.
+Proof. exact sort_strings_stable. Qed.
+Print Assumptions C02_sort_strings_stable.
+
+(** max / min: null on the empty array, else a member that no member exceeds
+    (resp. that exceeds no member) in [Ord for Variable]. *)
+Theorem C02_max : forall ev sg l off r o, homogeneous l -> validate sg [VArr l] off = Ok tt ->
+  call_builtin ev BMax sg [VArr l] off = Ok (r, o) ->
+  (l = [] /\ r = VNull) \/ (In r l /\ forall y, In y l -> le var_cmp y r).
+Proof. exact max_spec. Qed.
+Print Assumptions C02_max.
+
+Theorem C02_min : forall ev sg l off r o, homogeneous l -> validate sg [VArr l] off = Ok tt ->
+  call_builtin ev BMin sg [VArr l] off = Ok (r, o) ->
+  (l = [] /\ r = VNull) \/ (In r l /\ forall y, In y l -> le var_cmp r y).
+Proof. exact min_spec. Qed.
+Print Assumptions C02_min.
 
 Theorem C02_sort : forall ev sg l off, validate sg [VArr l] off = Ok tt ->
   call_builtin ev BSort sg [VArr l] off = Ok (VArr (stable_sort var_cmp l), off).
@@ -97,6 +132,58 @@ Print Assumptions C02_map.
 Theorem C02_map_preserves_length : forall ev ast vs o rs o', each ev ast vs o rs o' -> length rs = length vs.
 Proof. exact each_length. Qed.
 Print Assumptions C02_map_preserves_length.
+
+(** String predicates, join, not_null, to_array, type, to_string on strings. *)
+Theorem C02_starts_with : forall ev sg s p off, validate sg [VStr s; VStr p] off = Ok tt ->
+  exists b, call_builtin ev BStartsWith sg [VStr s; VStr p] off = Ok (VBool b, off) /\ (b = true <-> exists t, s = p ++ t).
+Proof. exact starts_with_fn_spec. Qed.
+Print Assumptions C02_starts_with.
+
+Theorem C02_ends_with : forall ev sg s p off, validate sg [VStr s; VStr p] off = Ok tt ->
+  exists b, call_builtin ev BEndsWith sg [VStr s; VStr p] off = Ok (VBool b, off) /\ (b = true <-> exists t, s = t ++ p).
+Proof. exact ends_with_fn_spec. Qed.
+Print Assumptions C02_ends_with.
+
+Theorem C02_contains_string : forall ev sg s p off, validate sg [VStr s; VStr p] off = Ok tt ->
+  exists b, call_builtin ev BContains sg [VStr s; VStr p] off = Ok (VBool b, off) /\ (b = true <-> exists a c, s = a ++ p ++ c).
+Proof. exact contains_string_spec. Qed.
+Print Assumptions C02_contains_string.
+
+Theorem C02_contains_array : forall ev sg l x off, validate sg [VArr l; x] off = Ok tt ->
+  exists b, call_builtin ev BContains sg [VArr l; x] off = Ok (VBool b, off) /\ (b = true <-> exists y, In y l /\ var_eq y x = true).
+Proof. exact contains_array_spec. Qed.
+Print Assumptions C02_contains_array.
+
+Theorem C02_join : forall ev sg glue l off, validate sg [VStr glue; VArr (map VStr l)] off = Ok tt ->
+  call_builtin ev BJoin sg [VStr glue; VArr (map VStr l)] off = Ok (VStr (intercalate glue l), off).
+Proof. exact join_spec. Qed.
+Print Assumptions C02_join.
+
+Theorem C02_not_null : forall ev sg args off, validate sg args off = Ok tt ->
+  call_builtin ev BNotNull sg args off = Ok (first_non_null args, off).
+Proof. exact not_null_spec. Qed.
+Print Assumptions C02_not_null.
+
+Theorem C02_first_non_null : forall args,
+  (exists pre v post, args = pre ++ v :: post /\ Forall (fun a => a = VNull) pre /\ v <> VNull /\ first_non_null args = v) \/
+  (Forall (fun a => a = VNull) args /\ first_non_null args = VNull).
+Proof. exact first_non_null_spec. Qed.
+Print Assumptions C02_first_non_null.
+
+Theorem C02_to_array : forall ev sg a off, validate sg [a] off = Ok tt ->
+  call_builtin ev BToArray sg [a] off = Ok (match a with VArr _ => a | _ => VArr [a] end, off).
+Proof. exact to_array_spec. Qed.
+Print Assumptions C02_to_array.
+
+Theorem C02_type : forall ev sg a off, validate sg [a] off = Ok tt ->
+  call_builtin ev BType sg [a] off = Ok (VStr (type_name (get_type a)), off).
+Proof. exact type_spec. Qed.
+Print Assumptions C02_type.
+
+Theorem C02_to_string_of_string : forall ev sg s off, validate sg [VStr s] off = Ok tt ->
+  call_builtin ev BToString sg [VStr s] off = Ok (VStr s, off).
+Proof. exact to_string_of_string. Qed.
+Print Assumptions C02_to_string_of_string.
 
 Example C02_example :
   stable_sort var_cmp [VNum (PosInt 3); VNum (Flt (f_of_Z 1)); VNum (PosInt 1); VNum (NegInt (-2))] =
